@@ -528,6 +528,24 @@ pub fn padded_program(idx: u64) -> Program {
                 v.push(Stmt::Asm(format!("NOPS {} ;@I{}", n, 900 + asm_big), Some(n as u32)));
                 return v;
             }
+            if rng.chance(1, 3) {
+                // expansions of an inline function that holds an asm block of declared size 6
+                while left >= 6 {
+                    v.push(Stmt::Expr(Expr::Call(1, vec![])));
+                    left -= 6;
+                }
+                v.extend(pad(rng, left));
+                return v;
+            }
+            if rng.chance(1, 4) {
+                // asm lines whose text starts with a dot, one byte each
+                while left >= 1 {
+                    asm_big += 1;
+                    v.push(Stmt::Asm(format!(".NOPS 1 ;@I{}", 2000 + asm_big), Some(1)));
+                    left -= 1;
+                }
+                return v;
+            }
             while left >= 15 {
                 v.push(Stmt::Expr(Expr::Call(0, vec![])));
                 left -= 15;
@@ -594,6 +612,8 @@ pub fn padded_program(idx: u64) -> Program {
         // inline void sel() { if (a) c = 1; else c = 2; }  (function 0: what Expr::Call(0, ..) names)
         let sel_body = vec![Stmt::If(lvv(A), Box::new(assign(LV::Var(C), Expr::Num(1))), Some(Box::new(assign(LV::Var(C), Expr::Num(2)))))];
         p.funcs.push(Func { name: "sel".into(), ret: None, params: vec![], body: sel_body, inline: true, interrupt: false, proto_first: false });
+        // inline void burn() { asm("NOPS 6", 6); }   (function 1)
+        p.funcs.push(Func { name: "burn".into(), ret: None, params: vec![], body: vec![Stmt::Asm("NOPS 6 ;@I1999".into(), Some(6))], inline: true, interrupt: false, proto_first: false });
     }
     p.funcs.push(Func { name: "main".into(), ret: None, params: vec![], body, inline: rng.chance(1, 5) && false, interrupt: false, proto_first: false });
     p
